@@ -280,3 +280,20 @@ func (r *Report) finish(verifDir string) int {
 	}
 	return exit
 }
+
+// withRule runs fn and files every obligation / violation it adds under rule `as`: a rule set of one
+// property reused as a necessary condition of another keeps that property's numbering.
+func (r *Report) withRule(as string, fn func()) {
+	o0, v0 := len(r.Obls), len(r.Viol)
+	fn()
+	for i := o0; i < len(r.Obls); i++ {
+		r.Obls[i].Construct = "[" + r.Obls[i].Rule + "] " + r.Obls[i].Construct
+		r.Obls[i].Rule = as
+	}
+	for i := v0; i < len(r.Viol); i++ {
+		v := &r.Viol[i]
+		v.Construct = "[" + v.Rule + "] " + v.Construct
+		v.Rule = as
+		v.Key = strings.Join([]string{r.Prop, as, v.Func, v.Construct}, "|")
+	}
+}
